@@ -344,3 +344,6 @@ def sweep(chk):
 def run(chk):
     chk.guard("O12.1", GUARD, lock_pairing, chk)
     chk.guard("O12.2", SERVICE_RUNNER, sweep, chk)
+    from . import c02
+
+    chk.guard("O12.4", META, c02.mapping_cleared, chk, "O12.4")
